@@ -160,6 +160,9 @@ class Validator:
                     if isinstance(props, dict):
                         if self.is_valid_for_version(props, version) is True:
                             valid_list.append(props)
+                            # also filter the properties of any object in the list
+                            # e.g. an inline SYMBOL in STYLE (oneOf)
+                            self.get_versioned_properties(props, version)
                     else:
                         valid_list.append(props)
                 properties[key] = valid_list
